@@ -3,8 +3,9 @@ import Ecal.Model.Engine
 /-!
 Driver of C01. Payload: space separated `key=value` fields
 
-  `w=<workers> m=<w|a> r=<rule>|<rule>… s=<scope> e=<event>|<event>… x=<regex table>`
+  `w=<workers> m=<w|a> o=<i|p> r=<rule>|<rule>… s=<scope> e=<event>|<event>… x=<regex table>`
 
+* `m`, `o`, `w` only steer the harness (wait / async adding; index or processor first; worker count).
 * rule  `name;kinds;scopes;state;prio;suppress` — names/kinds/paths/keys hex encoded (`-` = empty
   string, `_` = empty list), lists joined by `,`; state `N` (nil map) or entries `key:pat` with
   pat `A` (nil) | `H<class>i<n>` (hashable value) | `D<class>i<n>` (list/map) | `X<regex id>`.
